@@ -324,6 +324,20 @@ func (e *Engine) globalObject(fx *FuncCtx, g *ssa.Global) *Object {
 	return o
 }
 
+// tableInstanceNoDedupe: the instances for a read executed on one path (assumed on that path only).
+func (fx *FuncCtx) tableInstanceNoDedupe(o *Object, idx Term) []Term {
+	var out []Term
+	if boundRe.MatchString(idx.S) {
+		return nil
+	}
+	for _, tf := range fx.factObjs[o] {
+		st := &State{fx: fx, heap: map[*Object]Value{}, discover: &discoverCtx{}}
+		env := &SpecEnv{fx: fx, st: st, vars: map[string]Value{"c": idx}, info: tf.Info}
+		out = append(out, env.evalBool(tf.Cl.Expr))
+	}
+	return out
+}
+
 // tableInstance returns the table facts of object o instantiated at index idx (a BV64 term inside the array bounds).
 func (fx *FuncCtx) tableInstance(o *Object, idx Term) []Term {
 	var out []Term
